@@ -1,0 +1,41 @@
+//go:build verif
+// +build verif
+
+package gocql
+
+import "context"
+
+// Verification hooks: compiled only with the "verif" build tag. The harness under
+// /verif installs the function variables; every call site is a single added line at a
+// linearization point (or immediately before a state change other goroutines can
+// observe). A hook may block: the harness uses that to force interleavings.
+
+var (
+	verifConnHook  func(point string, c *Conn, call *callReq, a, b int, err error)
+	verifCtxHook   func(ctx context.Context, c *Conn, call *callReq)
+	verifEventHook func(point string, obj interface{}, s string, a int, err error)
+)
+
+func verifConn(point string, c *Conn, call *callReq, a, b int) {
+	if h := verifConnHook; h != nil {
+		h(point, c, call, a, b, nil)
+	}
+}
+
+func verifConnErr(point string, c *Conn, call *callReq, a int, err error) {
+	if h := verifConnHook; h != nil {
+		h(point, c, call, a, 0, err)
+	}
+}
+
+func verifCtx(ctx context.Context, c *Conn, call *callReq) {
+	if h := verifCtxHook; h != nil {
+		h(ctx, c, call)
+	}
+}
+
+func verifEvent(point string, obj interface{}, s string, a int, err error) {
+	if h := verifEventHook; h != nil {
+		h(point, obj, s, a, err)
+	}
+}
